@@ -10,7 +10,7 @@ here overrides `explore` and does its own bookkeeping in `ctx` in the same forma
 Model runners: coq/Run/RunMisc.v; runners that depend on files which may be absent (Model/Monitors.v,
 Spec/Scrypt.v + Model/ScryptImpl.v) are emitted into the generated case files only when those files exist.
 """
-import base64, collections, hashlib, itertools, json, os, re, shutil, subprocess, sys, tempfile
+import base64, collections, errno, fcntl, hashlib, itertools, json, os, re, shutil, subprocess, sys, tempfile, threading, time
 from concurrent.futures import ThreadPoolExecutor
 
 import vlib
@@ -836,15 +836,18 @@ def view_of(F, hdr):
 
 class C08(MiscProp):
     id = "C08"
-    rule = ("library: plaintext lengths 0,1,2,5,31..33,100 under several read partitions (one record per non-empty read) and "
+    rule = ("library: plaintext lengths 0,1,5,32,33,100 (thorough also 2, 31) under several read partitions (one record per non-empty read) and "
             "65535..65537 (thorough: 131072, 131073); every (length, partition) is encrypted for 3 (thorough 5) different "
             "sender/recipient pairs — resp. passwords — with the SAME ephemeral key / salt and partly different payload keys "
             "and plaintext contents: length = 132 (36) + 32*records + |P|, records = max(1, non-empty reads); the cleartext view "
             "(magic, bytes 4..36, each record's 16 header bytes) equals the predicted one and is identical inside a group; no "
             "needle (both public keys raw / base64 / keyring encoding / hex) occurs in the file; every file is also compared "
-            "with the model byte for byte (run_key_enc / run_pass_enc). CLI: real `encrypt` / `password encrypt` processes over a "
+            "with the model byte for byte (run_key_enc / run_pass_enc); half-injected ephemeral pairs (Some e, None) and (None, Some epk) — which "
+            "noise.rs treats as not injected — with the fresh key taken from an installed random stream: bytes 4..36 must be the FRESH "
+            "key's public key, same view for all identities, no needle, model = run_key_enc_fresh on the same stream. CLI: real `encrypt` / `password encrypt` processes over a "
             "keyring with named entries (ASCII, spaces, non-ASCII), file and stdin input, with and without a fixed random stream: "
-            "same checks plus the keyring names and every keyring public key as needles. non-trivial = all; distinct = distinct "
+            "same checks plus the keyring names and every keyring public key as needles; also onto a pre-existing LONGER output file "
+            "whose text contains the keyring (names, public keys): the result must obey the exact length formula and contain no needle. non-trivial = all; distinct = distinct "
             "driver lines / argv")
     assumptions = ["needle search is over exact encodings (raw, base64 variants, keyring encoding, hex); an AEAD output that happened to contain a 32-byte needle by chance has probability < 2^-200",
                    "names shorter than 10 bytes are not used as needles (they could occur by chance)",
@@ -852,7 +855,77 @@ class C08(MiscProp):
 
     def run(self, ctx):
         self.library(ctx)
+        self.library_mixed(ctx)
         self.cli_part(ctx)
+
+    def library_mixed(self, ctx):
+        """half-injected ephemeral pairs: (Some e, None) and (None, Some epk).  noise.rs::init_x keeps an injected pair only
+        when BOTH halves are given, so the ephemeral key is fresh: it comes from the random stream (installed with setrand;
+        the same blocks go to the model runner run_key_enc_fresh)."""
+        rng = ctx.rng
+        full = ctx.thorough()
+        G = 5 if full else 3
+        ids = keypairs(ctx, 2 * G + 1)
+        e_inj, epk_inj = ids[-1]
+        lens = [0, 5, 33] if full else [0, 33]
+        o_ = lambda b: "none" if b is None else hexs(b)
+        specs = []
+        for combo in ("e-only", "epk-only"):
+            for li, n in enumerate(lens):
+                for pk_given in ([True, False] if full else [li % 2 == 0]):
+                    stream = ctx.rbytes((32 if pk_given else 64) + rng.choice([0, 7]))
+                    pk = ctx.rbytes(32) if pk_given else None
+                    parts = [] if n == 0 else rng.choice(all_partitions(n, n) if n <= 5 else [[], [1, 1], [n // 2]])
+                    for k in range(G):
+                        (s, spk), (r, rpk) = ids[2 * k], ids[2 * k + 1]
+                        specs.append({"combo": combo, "n": n, "pk": pk, "stream": stream, "parts": parts, "s": s, "spk": spk, "r": r, "rpk": rpk,
+                                      "e": e_inj if combo == "e-only" else None, "epk": epk_inj if combo == "epk-only" else None,
+                                      "data": ctx.rbytes(n), "g": (combo, n, pk_given)})
+        bodies = []
+        for sp in specs:
+            bodies.append("setrand %s" % hexs(sp["stream"]))
+            bodies.append("key_enc %s %s %s %s %s %s %s %s - -" % (hexs(sp["s"]), hexs(sp["spk"]), hexs(sp["rpk"]), o_(sp["e"]), o_(sp["epk"]),
+                                                                  o_(sp["pk"]), hexs(sp["data"]), script_of(sp["parts"])))
+            bodies.append("randleft")
+        bodies.append("setrand none")
+        res = drv(ctx.bin, bodies)
+        fresh = drv(ctx.bin, ["xpub %s" % hexs(sp["stream"][(0 if sp["pk"] else 32):(32 if sp["pk"] else 64)]) for sp in specs])
+        views = collections.defaultdict(set)
+        items, inputs, impls, shows = [], {}, {}, {}
+        for i, sp in enumerate(specs):
+            r_, left = res[3 * i + 1], res[3 * i + 2]
+            inp = {"driver": "libdrv", "lines": bodies[3 * i:3 * i + 3] + ["setrand none"], "oracle": None}
+            self.ran(ctx, "library-mixed/%s/%s" % (sp["combo"], "payload-injected" if sp["pk"] else "payload-fresh"))
+            ob = vlib.parse_result("key_enc", r_["raw"])
+            if not self.check(ctx, ob["code"] == 0, inp, "encryption succeeds", r_["raw"][:300]):
+                continue
+            F = ob["out"]
+            sizes = sim_reads(sp["n"], sp["parts"]) or [0]
+            fe_pub = unhex(fresh[i].get("out", "-"))
+            want_v = PROLOGUE + fe_pub + b"".join(j.to_bytes(8, "big") + (1 if j == len(sizes) - 1 else 0).to_bytes(4, "big") + sizes[j].to_bytes(4, "big")
+                                                   for j in range(len(sizes)))
+            v, _ = view_of(F, 132)
+            self.check(ctx, len(F) == 132 + 32 * len(sizes) + sp["n"], inp, "length = 132 + 32*%d + %d" % (len(sizes), sp["n"]), "%d bytes" % len(F))
+            self.check(ctx, v == want_v, inp,
+                       "a half-injected ephemeral pair is not used: bytes 4..36 are the public key of a FRESH ephemeral key (the stream block), "
+                       "cleartext view = " + want_v.hex(), v.hex())
+            nd = needles_for(sp["spk"], "sender-public-key") + needles_for(sp["rpk"], "recipient-public-key")
+            hits = find_needles(F, nd)
+            self.check(ctx, not hits, inp, "no identity material anywhere in the file", "found " + ", ".join(hits))
+            views[sp["g"]].add(v)
+            fpk = "[]" if sp["pk"] else g_bytes(sp["stream"][0:32])
+            fe = g_bytes(sp["stream"][(0 if sp["pk"] else 32):(32 if sp["pk"] else 64)])
+            term = "run_key_enc_fresh [] %s %s %s %s %s %s %s %s %s %s [] []" % (fpk, fe, g_bytes(sp["s"]), g_bytes(sp["spk"]), g_bytes(sp["rpk"]),
+                                                                                g_opt(sp["e"]), g_opt(sp["epk"]), g_opt(sp["pk"]), g_bytes(sp["data"]),
+                                                                                g_rscript(script_of(sp["parts"])))
+            items.append((i, "obs_eqb (%s) %s" % (term, g_obs(ob)), 10))
+            shows[i] = "show (%s)" % term
+            inputs[i], impls[i] = inp, r_["raw"][:400]
+        for g, vs in views.items():
+            self.check(ctx, len(vs) == 1, {"driver": "libdrv", "group": "half-injected ephemeral pair %s, length %d, payload key injected: %s" % g},
+                       "identical cleartext views whatever the sender / recipient", "%d different views: %s" % (len(vs), [x.hex() for x in list(vs)[:2]]))
+        res_m, log = coq_eval(ctx.pid + "x", items)
+        self.model_results(ctx, "library-mixed", items, res_m, log, inputs, impls, shows)
 
     def library(self, ctx):
         rng = ctx.rng
@@ -860,7 +933,7 @@ class C08(MiscProp):
         G = 5 if full else 3
         ids = keypairs(ctx, 2 * G + 1)
         e, epk = ids[-1]
-        lens_small = [0, 1, 2, 5, 31, 32, 33, 100]
+        lens_small = [0, 1, 2, 5, 31, 32, 33, 100] if full else [0, 1, 5, 32, 33, 100]
         lens_big = [BIG - 1, BIG, BIG + 1] + ([2 * BIG, 2 * BIG + 1] if full else [])
         groups = []
         for n in lens_small + lens_big:
@@ -991,12 +1064,32 @@ class C08(MiscProp):
                     jobs.append({"args": ["password", "encrypt", pf, "-o", o, "--env-pass"], "env": {"KESTREL_PASSWORD": pw, "KESTREL_VERIF_RANDOM": st32.hex()}})
                     meta.append({"kind": "password-encrypt", "n": n, "mode": "stream", "out": o, "P": P, "hdr": 36, "stdin": False,
                                  "group": ("password", n), "pw": pw})
+            # the -o path already holds a LONGER file whose text names the keyring's parties: it must be replaced, not overlaid
+            old_text = ("previous contents of the output file\n" + kr_text).encode("utf-8")
+            for n in ([0, 1000, BIG + 1] if full else [0, 1000]):
+                P = ctx.rbytes(n)
+                pf = os.path.join(wd, "q_%d.bin" % n)
+                open(pf, "wb").write(P)
+                old = old_text * (1 + (n + 400) // len(old_text))
+                for kind in ("encrypt", "password-encrypt"):
+                    o = os.path.join(wd, "pre_%s_%d.bin" % (kind, n))
+                    open(o, "wb").write(old)
+                    if kind == "encrypt":
+                        jobs.append({"args": ["encrypt", pf, "-t", names[1], "-f", names[0], "-o", o, "-k", kr, "--env-pass"], "env": {"KESTREL_PASSWORD": pws[0]}})
+                        meta.append({"kind": "encrypt", "n": n, "from": 0, "to": 1, "mode": "preexisting-longer-output", "out": o, "P": P, "hdr": 132,
+                                     "stdin": False, "group": None, "old_len": len(old)})
+                    else:
+                        jobs.append({"args": ["password", "encrypt", pf, "-o", o, "--env-pass"], "env": {"KESTREL_PASSWORD": "some other pw"}})
+                        meta.append({"kind": "password-encrypt", "n": n, "mode": "preexisting-longer-output", "out": o, "P": P, "hdr": 36, "stdin": False,
+                                     "group": None, "pw": "some other pw", "old_len": len(old)})
             results = cli_many(jobs)
             views = collections.defaultdict(set)
             decs = []
             for j, m, (rc, so, se) in zip(jobs, meta, results):
                 inp = {"driver": "cli", "argv": j["args"], "env": j["env"], "plaintext_len": m["n"], "stdin_input": m["stdin"],
                        "keyring_names": names}
+                if m.get("old_len"):
+                    inp["output_file_before"] = "%d bytes: 'previous contents of the output file' + the keyring text, repeated" % m["old_len"]
                 self.ran(ctx, "cli/%s/%s%s" % (m["kind"], m["mode"], "/stdin" if m["stdin"] else ""))
                 F = open(m["out"], "rb").read() if os.path.exists(m["out"]) else None
                 if not self.check(ctx, rc == 0 and F is not None, inp, "the CLI run succeeds and writes the file", "rc=%d %s" % (rc, se[-200:])):
@@ -1092,6 +1185,233 @@ class C11(MiscProp):
     def run(self, ctx):
         self.measure(ctx)
         self.traces(ctx)
+        self.process_streaming(ctx)
+
+    # ---------------------------------------------------------------- the real CLI process fed through pipes
+    @staticmethod
+    def proc_mem(pid):
+        try:
+            txt = open("/proc/%d/status" % pid).read()
+        except OSError:
+            return None
+        d = {}
+        for k in ("VmRSS", "VmHWM"):
+            m = re.search(r"^%s:\s+(\d+) kB" % k, txt, re.M)
+            d[k] = int(m.group(1)) * 1024 if m else None
+        return d
+
+    @staticmethod
+    def open_fifo_writer(path, alive, timeout=20):
+        """opens a FIFO for writing without blocking for ever when the reader never shows up"""
+        t0 = time.time()
+        while time.time() - t0 < timeout:
+            try:
+                fd = os.open(path, os.O_WRONLY | os.O_NONBLOCK)
+                fcntl.fcntl(fd, fcntl.F_SETFL, fcntl.fcntl(fd, fcntl.F_GETFL) & ~os.O_NONBLOCK)
+                return fd
+            except OSError as ex:
+                if ex.errno != errno.ENXIO or not alive():
+                    return None
+                time.sleep(0.01)
+        return None
+
+    def feed_job(self, job):
+        """starts one CLI process whose input is a pipe we hold open; writes the data up to each mark, then — with the pipe
+        STILL OPEN — waits for the output file to catch up and samples the process's memory; finally closes the pipe."""
+        data, marks, out = job["data"], job["marks"], job["out"]
+        res = {"marks": [], "rc": None, "stderr": ""}
+        errf = tempfile.TemporaryFile()
+        p = subprocess.Popen([vlib.CLIDRV] + job["argv"], env=cli_env(job["env"]),
+                             stdin=(subprocess.PIPE if job["how"] == "stdin" else subprocess.DEVNULL),
+                             stdout=subprocess.DEVNULL, stderr=errf, start_new_session=True)
+        dog = threading.Timer(120, p.kill)
+        dog.start()
+        fd = None
+        try:
+            if job["how"] == "stdin":
+                fd = p.stdin.fileno()
+            else:
+                fd = self.open_fifo_writer(job["fifo"], lambda: p.poll() is None)
+            if fd is None:
+                res["stderr"] = "the process never opened its input"
+            else:
+                try:
+                    cap = fcntl.fcntl(fd, 1032)          # F_GETPIPE_SZ
+                except OSError:
+                    cap = 65536
+                res["pipe_capacity"] = cap
+                pos, stalled = 0, False
+                for mark in marks:
+                    try:
+                        while pos < mark:
+                            pos += os.write(fd, data[pos:min(mark, pos + (1 << 20))])
+                    except OSError as ex:
+                        res["stderr"] = "write to the process failed: %r" % ex
+                        break
+                    need = job["need"](pos, cap)
+                    t0, size = time.time(), 0
+                    while True:
+                        try:
+                            size = os.path.getsize(out)
+                        except OSError:
+                            size = 0
+                        if size >= need or p.poll() is not None or time.time() - t0 > (1.0 if stalled else 30.0):
+                            break
+                        time.sleep(0.02)
+                    stalled = stalled or size < need
+                    mem = self.proc_mem(p.pid) or {}
+                    res["marks"].append({"written": pos, "output": size, "need": need, "rss": mem.get("VmRSS"), "hwm": mem.get("VmHWM"),
+                                         "alive": p.poll() is None})
+                try:
+                    while pos < len(data) and len(res["marks"]) == len(marks):      # the rest, after the last pause
+                        pos += os.write(fd, data[pos:pos + (1 << 20)])
+                except OSError as ex:
+                    res["stderr"] = "write to the process failed: %r" % ex
+        finally:
+            try:
+                if job["how"] == "stdin":
+                    p.stdin.close()
+                elif fd is not None:
+                    os.close(fd)
+            except OSError:
+                pass
+            try:
+                res["rc"] = p.wait(timeout=100)
+            except subprocess.TimeoutExpired:
+                p.kill()
+                res["rc"] = 124
+            dog.cancel()
+            errf.seek(0)
+            res["stderr"] += errf.read().decode("utf-8", "replace")[-300:]
+            errf.close()
+        try:
+            res["final_size"] = os.path.getsize(out)
+        except OSError:
+            res["final_size"] = None
+        return res
+
+    @staticmethod
+    def file_job(job):
+        """a complete run over a regular file; returns (rc, peak RSS of that child in bytes)"""
+        p = subprocess.Popen([vlib.CLIDRV] + job["argv"], env=cli_env(job["env"]), stdin=subprocess.DEVNULL,
+                             stdout=subprocess.DEVNULL, stderr=subprocess.PIPE, start_new_session=True)
+        dog = threading.Timer(120, p.kill)
+        dog.start()
+        err = p.stderr.read()
+        _, status, ru = os.wait4(p.pid, 0)
+        dog.cancel()
+        p.returncode = os.waitstatus_to_exitcode(status)
+        return {"rc": p.returncode, "maxrss": ru.ru_maxrss * 1024, "stderr": err.decode("utf-8", "replace")[-300:]}
+
+    def process_streaming(self, ctx):
+        MiB = 1 << 20
+        LO, HI = 8 * MiB, (256 if ctx.thorough() else 64) * MiB
+        GROW = 4 * MiB
+        wd = tempfile.mkdtemp(prefix="kv_c11_", dir="/tmp")
+        try:
+            data = hashlib.shake_256(ctx.rbytes(16)).digest(HI)
+            (s, spk), (r, rpk) = keypairs(ctx, 2)
+            kr_text, _ = make_keyring([("stream-sender", s, spk, b"pw-s", ctx.rbytes(32)), ("stream-recipient", r, rpk, b"pw-r", ctx.rbytes(32))])
+            kr = os.path.join(wd, "keyring.txt")
+            open(kr, "w").write(kr_text)
+            for n, name in ((LO, "lo"), (HI, "hi")):
+                with open(os.path.join(wd, "plain_%s.bin" % name), "wb") as f:
+                    f.write(data[:n])
+            P = lambda x: os.path.join(wd, x)
+            enc_need = lambda w, cap: w - cap - 2 * BIG
+            dec_need = lambda w, cap: w - cap - 2 * BIG - 132 - 32 * (w // BIG + 2)
+            envp, envs, envr = {"KESTREL_PASSWORD": "stream pw"}, {"KESTREL_PASSWORD": "pw-s"}, {"KESTREL_PASSWORD": "pw-r"}
+            keyargs = ["-t", "stream-recipient", "-f", "stream-sender", "-k", kr, "--env-pass"]
+            # phase 1: encrypt — FIFO as FILE, plain stdin, regular files
+            for nm in ("fifo_pass", "fifo_key"):
+                os.mkfifo(P(nm))
+            feeds = [
+                {"label": "password encrypt <FIFO>", "argv": ["password", "encrypt", P("fifo_pass"), "-o", P("o_fifo_pass.bin"), "--env-pass"],
+                 "env": envp, "how": "fifo", "fifo": P("fifo_pass"), "out": P("o_fifo_pass.bin"), "need": enc_need, "dir": "enc"},
+                {"label": "encrypt <FIFO>", "argv": ["encrypt", P("fifo_key"), "-o", P("o_fifo_key.bin")] + keyargs,
+                 "env": envs, "how": "fifo", "fifo": P("fifo_key"), "out": P("o_fifo_key.bin"), "need": enc_need, "dir": "enc"},
+                {"label": "password encrypt (stdin)", "argv": ["password", "encrypt", "-o", P("o_stdin_pass.bin"), "--env-pass"],
+                 "env": envp, "how": "stdin", "out": P("o_stdin_pass.bin"), "need": enc_need, "dir": "enc"},
+                {"label": "encrypt /dev/stdin", "argv": ["encrypt", "/dev/stdin", "-o", P("o_devstdin_key.bin")] + keyargs,
+                 "env": envs, "how": "stdin", "out": P("o_devstdin_key.bin"), "need": enc_need, "dir": "enc"},
+            ]
+            for j in feeds:
+                j.update(data=data, marks=[LO, HI])
+            files = []
+            for name in ("lo", "hi"):
+                files.append({"label": "password encrypt <regular file %s>" % name, "size": name, "grp": "pass-enc",
+                              "argv": ["password", "encrypt", P("plain_%s.bin" % name), "-o", P("ct_pass_%s.bin" % name), "--env-pass"], "env": envp})
+                files.append({"label": "encrypt <regular file %s>" % name, "size": name, "grp": "key-enc",
+                              "argv": ["encrypt", P("plain_%s.bin" % name), "-o", P("ct_key_%s.bin" % name)] + keyargs, "env": envs})
+            with ThreadPoolExecutor(max_workers=len(feeds) + len(files)) as ex:
+                f1 = [ex.submit(self.feed_job, j) for j in feeds]
+                f2 = [ex.submit(self.file_job, j) for j in files]
+                r1, r2 = [f.result() for f in f1], [f.result() for f in f2]
+            # phase 2: decrypt the regular-file ciphertexts — /dev/stdin as FILE, plain stdin, regular files
+            feeds2, files2 = [], []
+            if all(x["rc"] == 0 for x in r2):
+                ctp, ctk = open(P("ct_pass_hi.bin"), "rb").read(), open(P("ct_key_hi.bin"), "rb").read()
+                dmarks = lambda ct: [LO, len(ct) - BIG]
+                feeds2 = [
+                    {"label": "password decrypt /dev/stdin", "argv": ["password", "decrypt", "/dev/stdin", "-o", P("d_devstdin_pass.bin"), "--env-pass"],
+                     "env": envp, "how": "stdin", "out": P("d_devstdin_pass.bin"), "need": dec_need, "dir": "dec", "data": ctp, "marks": dmarks(ctp)},
+                    {"label": "decrypt /dev/stdin", "argv": ["decrypt", "/dev/stdin", "-t", "stream-recipient", "-o", P("d_devstdin_key.bin"), "-k", kr, "--env-pass"],
+                     "env": envr, "how": "stdin", "out": P("d_devstdin_key.bin"), "need": dec_need, "dir": "dec", "data": ctk, "marks": dmarks(ctk)},
+                    {"label": "password decrypt (stdin)", "argv": ["password", "decrypt", "-o", P("d_stdin_pass.bin"), "--env-pass"],
+                     "env": envp, "how": "stdin", "out": P("d_stdin_pass.bin"), "need": dec_need, "dir": "dec", "data": ctp, "marks": dmarks(ctp)},
+                ]
+                os.mkfifo(P("fifo_dec"))
+                feeds2.append({"label": "decrypt <FIFO>", "argv": ["decrypt", P("fifo_dec"), "-t", "stream-recipient", "-o", P("d_fifo_key.bin"), "-k", kr, "--env-pass"],
+                               "env": envr, "how": "fifo", "fifo": P("fifo_dec"), "out": P("d_fifo_key.bin"), "need": dec_need, "dir": "dec", "data": ctk, "marks": dmarks(ctk)})
+                for name in ("lo", "hi"):
+                    files2.append({"label": "password decrypt <regular file %s>" % name, "size": name, "grp": "pass-dec",
+                                   "argv": ["password", "decrypt", P("ct_pass_%s.bin" % name), "-o", P("d_pass_%s.bin" % name), "--env-pass"], "env": envp})
+                    files2.append({"label": "decrypt <regular file %s>" % name, "size": name, "grp": "key-dec",
+                                   "argv": ["decrypt", P("ct_key_%s.bin" % name), "-t", "stream-recipient", "-o", P("d_key_%s.bin" % name), "-k", kr, "--env-pass"], "env": envr})
+                with ThreadPoolExecutor(max_workers=len(feeds2) + len(files2)) as ex:
+                    f1 = [ex.submit(self.feed_job, j) for j in feeds2]
+                    f2 = [ex.submit(self.file_job, j) for j in files2]
+                    r1 += [f.result() for f in f1]
+                    r2 += [f.result() for f in f2]
+            seed_note = "input = SHAKE-256 stream from the run's seed; %d bytes, pauses after %d and at the end with the pipe still open" % (HI, LO)
+            for j, res in zip(feeds + feeds2, r1):
+                inp = {"driver": "cli-process", "argv": j["argv"], "env": j["env"], "input_via": j["how"] + (" (named FIFO given as FILE)" if j["how"] == "fifo" else " pipe"),
+                       "note": seed_note, "marks": j["marks"]}
+                self.ran(ctx, "process/%s" % j["label"])
+                if not self.check(ctx, res["rc"] == 0 and len(res["marks"]) == len(j["marks"]), inp, "the CLI run succeeds",
+                                  "rc=%s %s %s" % (res["rc"], res["stderr"][-200:], res["marks"])):
+                    continue
+                for m in res["marks"]:
+                    self.check(ctx, m["output"] >= m["need"], inp,
+                               "incremental output: with %d bytes fed and the input STILL OPEN the output file reaches >= %d bytes "
+                               "(fed - pipe capacity - two chunks%s) within 30 s" % (m["written"], m["need"], "" if j["dir"] == "enc" else " - ciphertext overhead"),
+                               "output file has %d bytes (process %s)" % (m["output"], "alive" if m["alive"] else "exited"))
+                a, b = res["marks"][0], res["marks"][-1]
+                if a["rss"] and b["rss"]:
+                    self.check(ctx, b["rss"] - a["rss"] < GROW and b["hwm"] - a["hwm"] < GROW, inp,
+                               "resident memory does not grow with the input: VmRSS / VmHWM after %d bytes within %d bytes of the values after %d bytes"
+                               % (b["written"], GROW, a["written"]),
+                               "VmRSS %d -> %d, VmHWM %d -> %d" % (a["rss"], b["rss"], a["hwm"], b["hwm"]))
+                    self.count(ctx, "process-rss-growth-KiB:%s=%d" % (j["label"], (b["rss"] - a["rss"]) // 1024))
+                else:
+                    self.count(ctx, "process-memory-not-sampled:" + j["label"])
+                if j["dir"] == "dec":
+                    self.count(ctx, "process-decrypt-output-complete:%s" % ("yes" if res["final_size"] == HI else "NO"))
+                self.sample(ctx, {"gen": "process", "label": j["label"], "marks": res["marks"]})
+            grp = collections.defaultdict(dict)
+            for j, res in zip(files + files2, r2):
+                inp = {"driver": "cli-process", "argv": j["argv"], "env": j["env"], "note": "regular file of %d bytes" % (LO if j["size"] == "lo" else HI)}
+                self.ran(ctx, "process/%s" % j["label"])
+                if self.check(ctx, res["rc"] == 0, inp, "the CLI run succeeds", "rc=%s %s" % (res["rc"], res["stderr"][-200:])):
+                    grp[j["grp"]][j["size"]] = (res["maxrss"], inp)
+            for g, d in grp.items():
+                if "lo" in d and "hi" in d:
+                    self.check(ctx, d["hi"][0] - d["lo"][0] < 2 * GROW, d["hi"][1],
+                               "peak resident memory (ru_maxrss) for a %d-byte file within %d bytes of that for a %d-byte file" % (HI, 2 * GROW, LO),
+                               "maxrss %d vs %d" % (d["hi"][0], d["lo"][0]))
+                    self.count(ctx, "file-maxrss-growth-KiB:%s=%d" % (g, (d["hi"][0] - d["lo"][0]) // 1024))
+        finally:
+            shutil.rmtree(wd, ignore_errors=True)
 
     def measure(self, ctx):
         MiB = 1 << 20
@@ -1541,9 +1861,10 @@ class C18(MiscProp):
 Z32 = bytes(32)
 
 
-def interleavings(k):
-    """all histories of clone / drop operations on the containers descending from ONE key with at most k clones
-    (every index choice, every prefix; the containers still live at the end are dropped by the driver)"""
+def interleavings(k, roots=1):
+    """all histories of clone (c<i>) / clone_from (f<i>:<j>, i != j) / drop (d<i>) operations over `roots` initial
+    containers of one kind with at most k allocating operations (clones + clone_froms): every index choice, every
+    prefix; the containers still live at the end are dropped by the driver"""
     out = []
 
     def rec(seq, n, used):
@@ -1555,12 +1876,79 @@ def interleavings(k):
                 seq.append("c%d" % i)
                 rec(seq, n + 1, used + 1)
                 seq.pop()
+            for i in range(n):
+                for j in range(n):
+                    if i != j:
+                        seq.append("f%d:%d" % (i, j))
+                        rec(seq, n, used + 1)
+                        seq.pop()
         for i in range(n):
             seq.append("d%d" % i)
             rec(seq, n - 1, used)
             seq.pop()
-    rec([], 1, 0)
+    rec([], roots, 0)
     return out
+
+
+def z_translate(toks, keys):
+    """driver history -> what the driver must report and the Model/Zeroize.v history.
+    The model has no clone_from.  For a PrivateKey, `a.clone_from(&b)` (derived Clone: *a = b.clone()) allocates the
+    clone's block and then drops a's old value: model ops OClone j; ODrop i — the model appends the clone at the END of
+    its container list while the driver keeps it at position i, so the positions are tracked here (driver position ->
+    container id -> model position).  For the boxed PayloadKey the assignment happens inside the box: no block is
+    allocated or released, the model is not stepped (block contents are irrelevant to the journal of the model with
+    zeroize; such histories are excluded from the comparison with the model WITHOUT zeroize).
+    Returns dict(ops, fin (final drops in the driver's order), n_first, n_second, exact)."""
+    ks = list(keys) if isinstance(keys, list) else [keys]
+    ki = 0
+    dl, ml, kind = [], [], {}          # driver order, model order (container ids), id -> 'P' | 'K'
+    nid = 0
+    ops, n_first, exact = [], 0, True
+    for t in toks:
+        if t[0] == "n":
+            b = ks[ki] if ki < len(ks) and ks[ki] is not None else bytes([1]) * 32
+            if not (ki < len(ks) and ks[ki] is not None):
+                exact = False
+            ki += 1
+            ops.append("ONew %s" % g_bytes(b))
+            kind[nid] = "K" if t.startswith("nk") else "P"
+            dl.append(nid)
+            ml.append(nid)
+            nid += 1
+        elif t[0] == "c":
+            src = dl[int(t[1:])]
+            ops.append("OClone %d%%nat" % ml.index(src))
+            kind[nid] = kind[src]
+            dl.append(nid)
+            ml.append(nid)
+            nid += 1
+        elif t[0] == "d":
+            x = dl.pop(int(t[1:]))
+            ops.append("ODrop %d%%nat" % ml.index(x))
+            ml.remove(x)
+            n_first += 1
+        elif t[0] == "f":
+            i, j = [int(x) for x in t[1:].split(":")]
+            dst, src = dl[i], dl[j]
+            if kind[dst] != kind[src]:
+                raise ValueError("clone_from between different kinds")
+            if kind[dst] == "P":
+                ops.append("OClone %d%%nat" % ml.index(src))
+                ml.append(nid)
+                ops.append("ODrop %d%%nat" % ml.index(dst))
+                ml.remove(dst)
+                kind[nid] = "P"
+                dl[i] = nid
+                nid += 1
+                n_first += 1
+            else:
+                exact = False
+    fin = []
+    ml2 = list(ml)
+    for x in dl:
+        fin.append("ODrop %d%%nat" % ml2.index(x))
+        ml2.remove(x)
+    return {"ops": "[" + "; ".join(ops) + "]", "fin": "[" + "; ".join(fin) + "]", "n_first": n_first, "n_second": len(dl), "exact": exact}
 
 
 def parse_freed(s):
@@ -1573,10 +1961,12 @@ def parse_freed(s):
 class C20(MiscProp):
     id = "C20"
     rule = ("histories over a list of live key containers in the driver (np = PrivateKey::try_from, ng = PrivateKey::generate with "
-            "and without an installed random stream, nk = boxed PayloadKey::new, c<i> = clone, d<i> = drop; the containers still "
-            "live at the end are dropped too): EVERY interleaving (every index choice, every prefix) of clones and drops of one key "
-            "with at most 2 (thorough 3) clones, for each constructor, plus random histories of up to 12 operations over several "
-            "keys; a global allocator records the bytes of each container's heap block at the moment dealloc is entered; oracle: "
+            "and without an installed random stream, nk = boxed PayloadKey::new, c<i> = clone, f<i>:<j> = container i .clone_from(container j) (for the boxed PayloadKey on "
+            "the value inside the box), d<i> = drop; the containers still live at the end are dropped too): EVERY interleaving (every "
+            "index choice, every prefix) of clones, clone_froms and drops with at most 2 (thorough 3) allocating operations, starting "
+            "from one key (each constructor) and from two different keys of one kind, plus random histories of up to 12 operations over "
+            "several keys; the model has no clone_from: a PrivateKey clone_from is translated to OClone j; ODrop i with the container "
+            "positions tracked (tools/props_misc.py::z_translate), a PayloadKey clone_from frees nothing; a global allocator records the bytes of each container's heap block at the moment dealloc is entered; oracle: "
             "every record is 32 zero bytes, one record per container, in release order; the journal is compared with "
             "Model/Zeroize.v (run true ops, observe) and must differ from the model without the zeroize call; whole-API scans "
             "(z_api noise_enc / key_enc / key_dec): no released block contains the caller's private key; dev and release profile. "
@@ -1605,9 +1995,9 @@ class C20(MiscProp):
     def histories(self, ctx):
         rng = ctx.rng
         k = 3 if ctx.thorough() else 2
-        hs = []     # (generator, stream or None, tokens (driver), model ops (strings), n_new)
+        hs = []     # (generator, stream | "none" | None, driver tokens, ONew keys in order (None = unknown))
         for ctor in ("np", "nk", "ng", "ng-os"):
-            for seq in interleavings(k):
+            for seq in interleavings(k, 1):
                 key = self.key(ctx)
                 if ctor == "ng":
                     first, stream = "ng", key + ctx.rbytes(rng.choice([0, 5]))
@@ -1615,14 +2005,31 @@ class C20(MiscProp):
                     first, stream = "ng", None
                 else:
                     first, stream = "%s:%s" % (ctor, key.hex()), "none"
-                hs.append(("interleave/%s/clones<=%d" % (ctor, k), stream, [first] + seq, key if ctor != "ng-os" else None))
+                hs.append(("interleave/%s/allocs<=%d" % (ctor, k), stream, [first] + seq, key if ctor != "ng-os" else None))
+        # two DIFFERENT keys of one kind: clone_from replaces a live key by another one
+        two = interleavings(2, 2)
+        if ctx.thorough():
+            big = interleavings(3, 2)          # 40775 histories: the complete set up to 2, a sample of 3000 of those with 3
+            two = two + rng.sample([x for x in big if len([t for t in x if t[0] in "cf"]) == 3], 3000)
+        for c1, c2 in (("np", "np"), ("nk", "nk"), ("ng", "np")):
+            for seq in two:
+                k1, k2 = self.key(ctx), self.key(ctx)
+                heads, stream = [], b""
+                for c, kk in ((c1, k1), (c2, k2)):
+                    if c == "ng":
+                        heads.append("ng")
+                        stream += kk
+                    else:
+                        heads.append("%s:%s" % (c, kk.hex()))
+                hs.append(("interleave2/%s+%s" % (c1, c2), stream if stream else "none", heads + seq, [k1, k2]))
         for _ in range(1500 if ctx.thorough() else 250):
             n = rng.randrange(1, 13)
-            toks, live, stream = [], 0, b""
+            toks, kinds, stream = [], [], b""
             keys = []
             for _ in range(n):
                 ch = rng.random()
-                if live == 0 or ch < 0.25:
+                pairs = [(i, j) for i in range(len(kinds)) for j in range(len(kinds)) if i != j and kinds[i] == kinds[j]]
+                if not kinds or ch < 0.25:
                     c = rng.choice(["np", "nk", "ng"])
                     key = self.key(ctx)
                     keys.append(key)
@@ -1631,32 +2038,20 @@ class C20(MiscProp):
                         toks.append("ng")
                     else:
                         toks.append("%s:%s" % (c, key.hex()))
-                    live += 1
-                elif ch < 0.6:
-                    toks.append("c%d" % rng.randrange(live))
-                    live += 1
+                    kinds.append("K" if c == "nk" else "P")
+                elif ch < 0.5:
+                    i = rng.randrange(len(kinds))
+                    toks.append("c%d" % i)
+                    kinds.append(kinds[i])
+                elif ch < 0.7 and pairs:
+                    toks.append("f%d:%d" % rng.choice(pairs))
                 else:
-                    toks.append("d%d" % rng.randrange(live))
-                    live -= 1
+                    i = rng.randrange(len(kinds))
+                    toks.append("d%d" % i)
+                    kinds.pop(i)
             hs.append(("random/len=%d" % n, stream if stream else "none", toks, keys))
         hs.append(("empty", "none", [], []))
         return hs
-
-    @staticmethod
-    def model_ops(toks, keys):
-        """driver tokens -> Zeroize.op list (Gallina text); keys: the ONew arguments in order"""
-        ks = list(keys) if isinstance(keys, list) else [keys]
-        out, ki = [], 0
-        for t in toks:
-            if t[0] == "n":
-                b = ks[ki] if ki < len(ks) and ks[ki] is not None else bytes([1]) * 32
-                ki += 1
-                out.append("ONew %s" % g_bytes(b))
-            elif t[0] == "c":
-                out.append("OClone %s%%nat" % t[1:])
-            else:
-                out.append("ODrop %s%%nat" % t[1:])
-        return "[" + "; ".join(out) + "]"
 
     def run(self, ctx):
         hs = self.histories(ctx)
@@ -1695,26 +2090,29 @@ class C20(MiscProp):
             gen, stream, toks, keys = hs[hi]
             inp = {"driver": "libdrv", "profile": prof, "lines": [bodies[bi - 1], bodies[bi], "setrand none"], "oracle": "zhist"}
             self.ran(ctx, "%s/%s" % (prof, gen), nontrivial=bool(toks))
-            n_new = len([t for t in toks if t[0] in "nc"])
-            n_drop = len([t for t in toks if t[0] == "d"])
+            tr = z_translate(toks, keys)
+            for t in toks:
+                if t[0] == "f":
+                    self.count(ctx, "clone_from-ops/" + prof)
             if not self.check(ctx, r.get("outcome") == "ok" and "overflow" not in r, inp, "the history runs", r["raw"][:300]):
                 continue
             first, second = parse_freed(r.get("freed", "-"))
             self.check(ctx, all(x == Z32 for x in first + second), inp,
-                       "every released container block holds 32 zero bytes at the moment of release",
+                       "every released container block holds 32 zero bytes at the moment of release "
+                       "(drop, and the replaced value of clone_from)",
                        "released contents: " + r.get("freed", "-")[:600])
-            self.check(ctx, len(first) == n_drop and len(second) == n_new - n_drop and r.get("live") == str(n_new - n_drop), inp,
-                       "one record per container: %d during the script, %d at the end" % (n_drop, n_new - n_drop),
+            self.check(ctx, len(first) == tr["n_first"] and len(second) == tr["n_second"] and r.get("live") == str(tr["n_second"]), inp,
+                       "one record per released container block: %d during the script (drops and PrivateKey clone_froms), %d at the end"
+                       % (tr["n_first"], tr["n_second"]),
                        "%d | %d live=%s" % (len(first), len(second), r.get("live")))
             self.count(ctx, "containers-released/" + prof, len(first) + len(second))
             if model:
-                ops = self.model_ops(toks, keys)
                 lst = lambda xs: "[" + "; ".join(g_bytes(x) for x in xs) + "]"
-                items.append((hi, "z_chk true %s %s %s %s" % (ops, lst(first), lst(second), r.get("live", "0")), len(toks) + 1))
-                inputs[hi], impls[hi], shows[hi] = inp, r["raw"][:400], "z_show %s" % ops
-                known = keys is not None and (not isinstance(keys, list) or all(k is not None for k in keys))
-                if n_new > 0 and known and len(nv_items) < 400:
-                    nv_items.append((hi, "negb (z_chk false %s %s %s %s)" % (ops, lst(first), lst(second), r.get("live", "0")), len(toks) + 1))
+                a_ = "%s %s %s %s %s" % (tr["ops"], tr["fin"], lst(first), lst(second), r.get("live", "0"))
+                items.append((hi, "z_chk_x true " + a_, len(toks) + 1))
+                inputs[hi], impls[hi], shows[hi] = inp, r["raw"][:400], "z_show_x %s %s" % (tr["ops"], tr["fin"])
+                if tr["n_first"] + tr["n_second"] > 0 and tr["exact"] and len(nv_items) < 400:
+                    nv_items.append((hi, "negb (z_chk_x false %s)" % a_, len(toks) + 1))
         if model:
             pre = "From Kestrel.Model Require Import Zeroize.\n"
             res_m, log = coq_eval(ctx.pid + "z", items, preamble=pre)
